@@ -61,7 +61,7 @@ theorem lead_take {ds : List Char} (h0 : ∀ t, ds ≠ '0' :: t) (k : Nat) : ∀
     | zero => simp at e
     | succ k => simp only [List.take_succ_cons] at e; injection e with e1 _; exact h0 r (by rw [e1])
 
-theorem lead_of_append {a b : List Char} (hne : a ≠ []) (h0 : ∀ t, a ++ b ≠ '0' :: t) : ∀ t, a ≠ '0' :: t := by
+theorem lead_of_append {a b : List Char} (_hne : a ≠ []) (h0 : ∀ t, a ++ b ≠ '0' :: t) : ∀ t, a ≠ '0' :: t := by
   intro t e
   rw [e] at h0
   exact h0 (t ++ b) rfl
